@@ -473,6 +473,8 @@ where
         _ => total,
     };
     let next = AtomicU64::new(0);
+    // C04 and C06 measure per-thread allocation peaks and CPU time around their own calls
+    let no_poison = matches!(ctx.prop.as_str(), "C04" | "C06") || std::env::var("VERIF_NO_POISON").is_ok();
     let cap = time_cap_s(ctx.tier);
     let start = ctx.start;
     let results: Vec<Obs> = std::thread::scope(|s| {
@@ -488,6 +490,12 @@ where
                         if start.elapsed().as_secs_f64() > cap {
                             obs.count("cases_skipped_by_time_cap", 1);
                             continue;
+                        }
+                        // a third of the cases are preceded, on this thread, by failing and
+                        // hostile calls whose leftovers must not reach the case (props/poison.rs)
+                        if i % 3 == 1 && !no_poison {
+                            crate::props::poison::run(i);
+                            obs.count("cases_preceded_by_failing_calls_on_the_same_thread", 1);
                         }
                         f(i, &mut obs);
                     }
